@@ -42,9 +42,19 @@ Definition show_case (c : case) : shown :=
   | CReload rej loads _ => STrace (reload_trace (subs_of rej) (init_state (length rej)) loads)
   end.
 
+(* The error kind is derived by the harness from the message text. A text it does not recognise is observed as
+   OErr "other" = "rejected, reason not classified": compatible with ANY error the model predicts (rewording a
+   message is a harmless change), still incompatible with acceptance and with a panic. Recognised kinds are compared
+   exactly, so a change of validation order that swaps two recognised reasons is still a mismatch. *)
+Definition compatible (model obs : outcome) : bool :=
+  match model, obs with
+  | OErr _, OErr k => String.eqb k "other" || beq model obs
+  | _, _ => beq model obs
+  end.
+
 Definition check_case (c : case) : bool :=
   match c with
-  | CLoad inv d obs => beq (out_of (load_validate (vl_of inv) d)) obs
+  | CLoad inv d obs => compatible (out_of (load_validate (vl_of inv) d)) obs
   | CSecret t n => beq (count_secrets t) n
   | CReload rej loads obs => beq (reload_trace (subs_of rej) (init_state (length rej)) loads) obs
   end.
